@@ -106,6 +106,18 @@ type rec struct {
 	WFetch  bool   `json:"wfetch"`
 	WExp    bool   `json:"wexp"`
 	WAct    string `json:"wact"`
+	// time / key epochs (key regime)
+	At     int    `json:"at"`     // the specification's instant of arrival
+	Pos    int    `json:"pos"`    // ... its position in its epoch (0 = NotBefore, 2 = NotAfter)
+	Cst    string `json:"cst"`    // ... and what the specification's cache holds when it arrives
+	Ep     int    `json:"ep"`     // epoch (the DRKey daemon's numbering) that contains the receive instant
+	Amb    bool   `json:"amb"`    // an epoch boundary passed while the datagram was under way: not judged
+	WMacOK bool   `json:"wmacok"` // the specification's MacOK(req, ReqKey(req)) for this step
+	// fetcher level (k = "fkey")
+	Scale    string `json:"scale"`    // length of an epoch
+	Accepted bool   `json:"accepted"` // the MAC verifies under the key derived from what the fetcher handed out
+	Fep      int    `json:"fep"`      // epoch of the host-AS key the fetcher handed out (-9: no epoch's key)
+	InEp     bool   `json:"inep"`     // ... whose Epoch contains the instant asked for
 }
 
 type rx struct {
